@@ -250,6 +250,9 @@ ALARMS = {'_absolute_alarms': ('absolute_alarms', 'List:A'), '_start_alarms': ('
           '_end_alarms': ('end_alarms', 'List:A'), '_start': ('start', 'OptD'), '_end': ('end_', 'OptD'),
           '_local_tzinfo': ('local_tzinfo', 'Opt:TZ'), '_last_ack': ('last_ack', 'OptD'),
           '_snooze_until': ('snooze_until', 'OptD'), '_parent': ('parent', 'Par')}
+ALARMS_F = {'_absolute_alarms': ('absolute_alarms', 'List:A'), '_start_alarms': ('start_alarms', 'List:A'),
+            '_end_alarms': ('end_alarms', 'List:A'), '_start': ('start', 'OptD'), '_end': ('end_', 'OptD'),
+            '_last_ack': ('last_ack', 'OptD'), '_snooze_until': ('snooze_until_', 'OptD'), '_parent': ('parent_now', 'Opt:CO')}
 ALARMS_EXT = {'to_datetime': ('fun', 'to_datetime', ['D'], 'D'), 'normalize_pytz': ('fun', 'normalize_pytz', ['D'], 'D'),
               'tzp.localize': ('fun', 'localize', ['D', 'TZ'], 'D'),
               'AlarmTime': ('fun', 'mk_alarm_time', ['A', 'D', 'OptD', 'OptD', 'Par'], 'AT'),
@@ -335,6 +338,28 @@ TARGETS = [
     Target('alarms.py', 'Alarms', '_get_end_alarm_times', 'Alarms_get_end_alarm_times', None, ALARMS,
            dict(ALARMS_EXT, **{'alarm.TRIGGER': ('expr', 'alarm_trigger_rel', ['alarm'], 'TDS')}), False, 'alarm', None, None, 'List:AT'),
     Target('alarms.py', 'Alarms', 'times', 'Alarms_times', None, ALARMS, ALARMS_EXT, False, 'alarm', None, None, 'List:AT'),
+    # Alarms.add_component and the setters it calls (C14): methods that write attributes of self return what they leave in them
+    Target('alarms.py', 'Alarms', 'set_parent', 'Alarms_set_parent', 'Fields', ALARMS_F,
+           {'self._parent is not parent': ('expr', 'parent_differs', ['self._parent', 'parent'], 'Bool')}, False, 'alarm', {'parent': 'CO'}),
+    Target('alarms.py', 'Alarms', 'add_alarm', 'Alarms_add_alarm', 'Fields', ALARMS_F,
+           {'alarm.TRIGGER': ('expr', 'alarm_trigger', ['alarm'], 'Opt:TR'),
+            'isinstance(trigger, date)': ('expr', 'trigger_is_date', ['trigger'], 'Bool'),
+            "alarm.TRIGGER_RELATED == 'START'": ('expr', 'related_is_start', ['alarm'], 'Bool')}, False, 'alarm', {'alarm': 'A'}),
+    Target('alarms.py', 'Alarms', 'set_start', 'Alarms_set_start', 'Fields', ALARMS_F, {}, False, 'alarm', {'dt': 'OptD'}),
+    Target('alarms.py', 'Alarms', 'set_end', 'Alarms_set_end', 'Fields', ALARMS_F, {}, False, 'alarm', {'dt': 'OptD'}),
+    Target('alarms.py', 'Alarms', 'acknowledge_until', 'Alarms_acknowledge_until', 'Fields', ALARMS_F,
+           {'tzp.localize_utc': ('fun', 'localize_utc', ['D'], 'D')}, False, 'alarm', {'dt': 'OptD'}),
+    Target('alarms.py', 'Alarms', 'snooze_until', 'Alarms_snooze_until', 'Fields', ALARMS_F,
+           {'tzp.localize_utc': ('fun', 'localize_utc', ['D'], 'D')}, False, 'alarm', {'dt': 'OptD'}),
+    Target('alarms.py', 'Alarms', 'add_component', 'Alarms_add_component', 'Fields', ALARMS_F,
+           {'isinstance(component, (Event, Todo))': ('expr', 'is_event_or_todo', ['component'], 'Bool'),
+            'component.start': ('pexpr', 'component_start', ['component'], 'D'),
+            'component.end': ('pexpr', 'component_end', ['component'], 'D'),
+            'component.is_thunderbird()': ('expr', 'is_thunderbird', ['component'], 'Bool'),
+            'component.X_MOZ_LASTACK': ('expr', 'x_moz_lastack', ['component'], 'OptD'),
+            'component.X_MOZ_SNOOZE_TIME': ('expr', 'x_moz_snooze_time', ['component'], 'OptD'),
+            'component.DTSTAMP': ('expr', 'dtstamp', ['component'], 'OptD'),
+            "component.walk('VALARM')": ('expr', 'walk_valarm', ['component'], 'List:A')}, False, 'alarm', {'component': 'CO'}),
     # ---- component trees (C20): `self` is the hand model's `Comp`; `select` is a function argument
     Target('cal.py', 'Component', '_walk', 'Component__walk', 'Comp', {}, {}, False, 'walk',
            {'name': 'OptStr', 'select': 'Fn:Comp:Bool'}, None, 'CompList', {'result': 'CompList'}),
@@ -381,7 +406,7 @@ TARGETS = [
 V = namedtuple('V', 'lean type lits elts', defaults=(None,))
 Tail = namedtuple('Tail', 'names make')        # what a block continues with when its statements run out
 ALIAS = 'alias'     # V.elts of a variable that is `xs[-1] if xs else None`: (ALIAS, the list's name)
-Done = namedtuple('Done', 'lean params rtype monadic nargs objself func argtypes', defaults=(False, 0, False, None, None))  # a translated function
+Done = namedtuple('Done', 'lean params rtype monadic nargs objself func argtypes fields', defaults=(False, 0, False, None, None, None))  # a translated function
 SUBVALUE = {'LocalTimezoneMissing': 'localTimezoneMissing', 'ComponentStartMissing': 'componentStartMissing',
             'ComponentEndMissing': 'componentEndMissing', 'InvalidCalendar': 'invalidCalendar',
             'IncompleteComponent': 'incompleteComponent'}       # ValueError subclasses of icalendar
@@ -408,7 +433,12 @@ class Widen(Exception):
         self.name, self.typ = name, typ
 
 
+FIELD_LNAME = {}       # `self__<attr>` (an attribute of self that the function being translated writes) -> its Lean name
+
+
 def lname(name):
+    if name in FIELD_LNAME:
+        return FIELD_LNAME[name]
     if name == "out'":      # the list of what a generator yields (not a Python identifier: cannot clash)
         return name
     return name + '_' if name in LEAN_KEYWORDS or name.endswith("'") else name
@@ -944,6 +974,24 @@ class Fn:
                 and node.orelse.value is None:      # `xs[-1] if xs else None`: the top of the list, or None
             xs = env[node.test.id]
             return V(f'{xs.lean}.getLast?', 'Opt:' + xs.type[5:], None, (ALIAS, node.test.id))
+        nar = self.narrowing(node.test, env)
+        if nar is not None:     # `E(x) if x is not None else None`: x is the object inside E
+            x, present_first = nar
+            self.fresh += 1
+            v = f"n{self.fresh}'"
+            old = dict(self.narrow)
+            some_n, none_n = (node.body, node.orelse) if present_first else (node.orelse, node.body)
+            nb = self.lazily(self.expr, none_n, env)
+            self.narrow[x.lean] = V(v, x.type[4:] if x.type.startswith('Opt:') else {'OptD': 'D', 'OptTDS': 'TDS', 'OptStr': 'Str'}[x.type], None)
+            try:
+                sb = self.lazily(self.expr, some_n, env)
+            finally:
+                self.narrow = old
+            if nb.type == 'None' and ('Opt' + sb.type in LEAN_TYPE or sb.type in ('D', 'TDS', 'Str')):
+                sb, nb = V(f'(some {sb.lean})', 'Opt' + sb.type, None), V('none', 'Opt' + sb.type, None)
+            if sb.type != nb.type:
+                self.fail(node, f'conditional expression of types {sb.type} and {nb.type}')
+            return V(f'(match {x.lean} with | none => {nb.lean} | some {v} => {sb.lean})', sb.type, None)
         c = self.test(node.test, env)
         a, b = self.lazily(self.expr, node.body, env), self.lazily(self.expr, node.orelse, env)
         if a.type != b.type:
@@ -1003,6 +1051,8 @@ class Fn:
                 v = V(f'(some {v.lean})', 'OptStr', None)
             if v.type == 'None' and typ.startswith('Opt'):
                 v = V('none', typ, None)
+            if typ in ('Opt' + v.type, 'Opt:' + v.type) and v.type in ('D', 'TDS') + tuple(x[4:] for x in [typ] if x.startswith('Opt:')):
+                v = V(f'(some {v.lean})', typ, None)       # an object where None is accepted too
             if v.type != typ:
                 self.fail(node, f'argument `{p}` of `{ast.unparse(node)[:40]}` is a {v.type}, the callee takes a {typ}')
             out.append(v)
@@ -1468,6 +1518,14 @@ class Fn:
         if isinstance(s, ast.Pass) or (isinstance(s, ast.Expr) and isinstance(s.value, ast.Constant)
                                        and isinstance(s.value.value, str)):
             return self.block(rest, env, tail)
+        if isinstance(s, ast.Return) and s.value is None and getattr(self, 'fields', None) is not None and not self.loopctx:
+            return self.fields_out(env)
+        if isinstance(s, ast.Expr) and isinstance(s.value, ast.Call) and isinstance(s.value.func, ast.Attribute) \
+                and isinstance(s.value.func.value, ast.Name) and s.value.func.value.id == 'self' and getattr(self, 'fields', None) is not None:
+            d = self.registry.get((self.t.cls, s.value.func.attr))
+            if d is not None and d.fields is not None:
+                ct = next(t for t in TARGETS if (t.cls, t.fn) == (self.t.cls, s.value.func.attr) and t.group == self.t.group)
+                return self.call_fields_method(s, d, ct, rest, env, tail)
         if isinstance(s, ast.Return):
             if s.value is None:
                 self.fail(s, 'bare return')
@@ -1592,6 +1650,14 @@ class Fn:
             return self.try_(s, rest, env, tail)
         if isinstance(s, ast.Assign) and len(s.targets) == 1 and isinstance(s.targets[0], ast.Name):
             v = self.expr(s.value, env)
+            if s.targets[0].id.startswith('self__') and getattr(self, 'fields', None) is not None:
+                want = self.t.self_attrs[s.targets[0].id[6:]][1]
+                if v.type != want and want in ('Opt:' + v.type, 'Opt' + v.type):      # an object where the attribute may also be None
+                    v = V(f'(some {v.lean})', want, None)
+                elif v.type == 'None' and want.startswith('Opt'):
+                    v = V('none', want, None)
+                if v.type != want:
+                    self.fail(s, f'self.{s.targets[0].id[6:]} is assigned a {v.type}, declared {want}')
             lines = self.take_pre()
             if v.type == 'Tuple':
                 lines += self.temps(v.elts)
@@ -1700,6 +1766,8 @@ class Fn:
             return 'valueErrors'
         if all(n in EXC and n not in self.modnames for n in names):
             return '[' + ', '.join('.' + c for n in names for c in EXC[n]) + ']'
+        if all(n in SUBVALUE and self.derives_from_valueerror(n) for n in names):      # ValueError subclasses of icalendar (none has subclasses in the model)
+            return '[' + ', '.join('Exc.' + SUBVALUE[n] for n in names) + ']'
         self.fail(s, f'handler for `{", ".join(names)}`')
 
     def try_general(self, s, rest, env, tail):
@@ -2050,7 +2118,7 @@ class Fn:
             if re.fullmatch(r"[A-Za-z_][\w']*", n) and n not in inner and word(n) and n not in [c[0] for c in caps]:
                 caps.append((n, typ))
         capsig = ('«EXTSIG»' if self.objself else '') + ''.join(f' ({n} : {lean_type(t)})' for n, t in caps)
-        if self.t.group == 'parse':     # the opaque types the loop mentions
+        if self.t.group in ('parse', 'alarm'):     # the opaque types the loop mentions
             ops = opaque_types([lean_type(t) for _, t in caps] + [lean_type(slots[n]) for n in state]
                                + ([lean_type(itv.type)] if itv is not None else []))
             capsig = ''.join(f' {{{o} : Type}}' for o in ops) + capsig
@@ -2123,6 +2191,12 @@ class Fn:
         asg = assigned(stmts)
         for st in stmts:
             for n in ast.walk(st):
+                if getattr(self, 'fields', None) is not None and isinstance(n, ast.Call) and isinstance(n.func, ast.Attribute) \
+                        and isinstance(n.func.value, ast.Name) and n.func.value.id == 'self':
+                    d = self.registry.get((self.t.cls, n.func.attr))
+                    for f in (d.fields or []) if d is not None else []:
+                        if 'self__' + f not in asg:
+                            asg.append('self__' + f)
                 if isinstance(n, ast.Call) and self.t.externals.get(ast.unparse(n.func), ('',))[0] in ('mut', 'mutlast'):
                     root = n.func
                     while isinstance(root, ast.Attribute):
@@ -2188,6 +2262,31 @@ class Fn:
             self.fail(self.func, f'signature ({", ".join(names)}) / decorators {decos} differ from the declared ones')
         defaults = dict(zip(names[len(names) - len(a.defaults):], a.defaults))
         env = {}
+        FIELD_LNAME.clear()
+        self.fields = None
+        if t.self_type == 'Fields':
+            self.fields = self.written_fields()
+            keep = {id(n) for n in ast.walk(self.func) if isinstance(n, (ast.Compare, ast.Call, ast.Attribute, ast.Subscript))
+                    and ast.unparse(n) in t.externals and t.externals[ast.unparse(n)][0] in ('expr', 'pexpr')}
+            fields = self.fields
+
+            class Rw(ast.NodeTransformer):
+                def generic_visit(self, node):
+                    if id(node) in keep:        # an expression that stays external as a whole keeps its text
+                        return node
+                    return super().generic_visit(node)
+
+                def visit_Attribute(self, node):
+                    if id(node) in keep:
+                        return node
+                    if isinstance(node.value, ast.Name) and node.value.id == 'self' and node.attr in fields:
+                        return ast.copy_location(ast.Name(id='self__' + node.attr, ctx=node.ctx), node)
+                    return self.generic_visit(node)
+            self.func = Rw().visit(self.func)
+            ast.fix_missing_locations(self.func)
+            self.parent = {c: p for p in ast.walk(self.func) for c in ast.iter_child_nodes(p)}
+            for f in self.fields:
+                FIELD_LNAME['self__' + f] = t.self_attrs[f][0]
         for n, typ in (t.args or {}).items():
             if typ == 'Object':     # an object that is only used through attributes declared as parameters
                 continue
@@ -2200,10 +2299,14 @@ class Fn:
             else:
                 env[n] = self.param(lname(n), typ)
         self.nargs = len(self.used)
+        for f in (self.fields or []):       # the attributes written: their values before the call are parameters
+            env['self__' + f] = self.param(*t.self_attrs[f])
 
         gen = any(isinstance(n, (ast.Yield, ast.YieldFrom)) for n in ast.walk(self.func))
 
         def off_end(e):
+            if self.fields is not None:       # a method that returns None: what it leaves in the attributes it writes
+                return self.fields_out(e)
             if gen:     # a generator that is exhausted: the list of what it yielded
                 self.rtype = 'DList'
                 return [self.ret(e["out'"].lean)]
@@ -2212,7 +2315,7 @@ class Fn:
             if any(isinstance(n, (ast.Return, ast.YieldFrom)) for n in ast.walk(self.func)):
                 self.fail(self.func, 'generator with `return` / `yield from`')
             env["out'"] = V("out'", 'DList', None)
-        top = Tail(["out'"] if gen else [], off_end)
+        top = Tail(["out'"] if gen else ['self__' + f for f in (self.fields or [])], off_end)
         saved = list(self.used)
         try:
             return self.block(self.func.body, env, top)
@@ -2220,6 +2323,65 @@ class Fn:
             self.monadic, self.used, self.rtype, self.fresh, self.pre, self.notes = True, saved, None, 0, [], []
             self.aux, self.nloops, self.loopctx, self.slots, self.narrow = [], 0, [], {}, {}
             return self.block(self.func.body, env, top)
+
+    def written_fields(self):
+        """the declared attributes of self that the function assigns, appends to, or that a translated method it calls writes"""
+        out = set()
+        for n in ast.walk(self.func):
+            tg = n.targets[0] if isinstance(n, ast.Assign) and len(n.targets) == 1 else n.target if isinstance(n, ast.AugAssign) else None
+            if isinstance(tg, ast.Attribute) and isinstance(tg.value, ast.Name) and tg.value.id == 'self':
+                if tg.attr not in self.t.self_attrs:
+                    self.fail(n, f'assignment to the undeclared attribute self.{tg.attr}')
+                out.add(tg.attr)
+            if isinstance(n, ast.Call) and isinstance(n.func, ast.Attribute) and isinstance(n.func.value, ast.Attribute) \
+                    and isinstance(n.func.value.value, ast.Name) and n.func.value.value.id == 'self' and n.func.value.attr in self.t.self_attrs:
+                if n.func.attr != 'append':
+                    self.fail(n, f'method .{n.func.attr}(..) of the attribute self.{n.func.value.attr}')
+                out.add(n.func.value.attr)
+            if isinstance(n, ast.Call) and isinstance(n.func, ast.Attribute) and isinstance(n.func.value, ast.Name) \
+                    and n.func.value.id == 'self':
+                d = self.registry.get((self.t.cls, n.func.attr))
+                if d is not None and d.fields is not None:
+                    out |= set(d.fields)
+                elif d is None and ast.unparse(n.func) not in self.t.externals:
+                    self.fail(n, f'call of self.{n.func.attr}(..), which is neither translated nor declared external, in a method that writes attributes')
+        return [f for f in self.t.self_attrs if f in out]
+
+    def fields_out(self, e):
+        vals = [e['self__' + f] for f in self.fields]
+        for f, v in zip(self.fields, vals):
+            if v.type != self.t.self_attrs[f][1]:
+                self.fail(self.func, f'self.{f} is left holding a {v.type}, declared {self.t.self_attrs[f][1]}')
+        self.rtype, self.rtype_lean = 'Tuple:fields', ' × '.join(lean_type(v.type) for v in vals)
+        return [self.ret('(' + ', '.join(v.lean for v in vals) + ')')]
+
+    def call_fields_method(self, s, d, ct, rest, env, tail):
+        """`self.m(..)` as a statement, m a translated method that writes attributes: they are rebound to what it leaves"""
+        node = s.value
+        args = self.bound_args(node, d.func, d.argtypes, env)
+        by_param = {p: f for f, (p, _) in ct.self_attrs.items()}
+        actual = []
+        for p in d.params[d.nargs:]:
+            f = by_param.get(p[0])
+            if f is not None and 'self__' + f in env:
+                actual.append(self.narrow.get(env['self__' + f].lean, env['self__' + f]).lean if False else env['self__' + f].lean)
+            else:
+                actual.append(self.param(*p).lean)
+        lean = ' '.join([d.lean] + [a.lean for a in args] + actual)
+        types = [ct.self_attrs[f][1] for f in d.fields]
+        if d.monadic:
+            r = self.hoist(node, lean, 'Tuple:fields')
+            self.pre[-1] = self.pre[-1].replace(': Tuple:fields ←', ': ' + ' × '.join(lean_type(x) for x in types) + ' ←')
+            lines = self.take_pre()
+        else:
+            self.fresh += 1
+            r = V(f"t{self.fresh}'", 'Tuple:fields', None)
+            lines = self.take_pre() + [f"let {r.lean} : {' × '.join(lean_type(x) for x in types)} := {lean}"]
+        for i, (f, ty) in enumerate(zip(d.fields, types)):
+            proj = r.lean if len(types) == 1 else r.lean + '.2' * i + ('.1' if i < len(types) - 1 else '')
+            env, line = self.bind(env, 'self__' + f, V(proj, ty, None))
+            lines.append(line)
+        return lines + self.block(rest, env, tail)
 
     def translate_fragment(self):
         """the first `for` loop of the function and the constant initialisations directly in front of it; the free
@@ -2375,7 +2537,7 @@ def translate(src_dir, group='enc'):
                     f'   {comment_safe(str(e))} -/', '']
             continue
         registry[(t.cls, t.fn)] = Done(t.lean, list(fn.used), fn.rtype, fn.monadic, fn.nargs, fn.objself, func,
-                                       [v for v in (t.args or {}).values()])
+                                       [v for v in (t.args or {}).values()], getattr(fn, 'fields', None))
         src_of = {p: (a if a.split('.')[0] in (t.args or {}) else f'self.{a}') for a, (p, _) in t.self_attrs.items()}
         src_of.update({lname(a): f'argument {a}' for a in (t.args or {})})
         for f, e in t.externals.items():
@@ -2422,7 +2584,7 @@ def translate(src_dir, group='enc'):
         opaque = sorted({e[3] for e in t.externals.values() if isinstance(e[0], str) and e[0] in ('pfun', 'expr') and e[3] not in LEAN_TYPE and e[3] != 'Object'})
         opaque = sorted(set(opaque) | {o for o in ('AT',) if re.search(r'\b' + o + r'\b', sig)})
         if group in ('parse', 'alarm'):
-            opaque = opaque_types([lean_type(ty) for _, ty in fn.used] + [lean_type(fn.rtype)])
+            opaque = opaque_types([lean_type(ty) for _, ty in fn.used] + [fn.rtype_lean or lean_type(fn.rtype)])
         sig = ''.join(f' {{{o} : Type}}' for o in opaque) + sig
         rt = fn.rtype_lean or lean_type(fn.rtype)
         res_t = "Py (" + rt + ")" if fn.monadic and " " in rt else "Py " + rt if fn.monadic else rt
